@@ -296,6 +296,9 @@ class SList:
                         return z3.IntVal(0)
                     if isinstance(t, TList):
                         return SList.of([], t.elem)
+                    if isinstance(t, TArr):
+                        zero = {'float': z3.RealVal(0), 'int': z3.IntVal(0), 'bool': z3.BoolVal(False)}[t.kind]
+                        return SArr((0,) * t.ndim, lambda *ix: zero, t.kind)
                     raise Unsupported('index into empty list of %r' % (t,))
                 return dummy(elem)
             if not all(is_scalar(x) for x in items):
